@@ -245,6 +245,9 @@ def tlc(module, cfg, workers=None, timeout=600, env_extra=None, simulate=None, d
     if to:
         r.error = "TLC timeout after %ds" % timeout
         return r
+    # TLC's own messages only: the printed verdict lines can hold megabytes of digits (a rejected scan of zeroed values), on which the
+    # patterns below backtrack quadratically while holding the interpreter lock (seen with seeded C03-17: 13 minutes without an end)
+    full, out = out, "\n".join(ln for ln in out.splitlines() if not ln.startswith('<<"') and len(ln) < 4000)
     m = re.search(r"(\d+) states generated, (\d+) distinct states found", out)
     if m:
         r.generated, r.distinct = int(m.group(1)), int(m.group(2))
@@ -267,7 +270,7 @@ def tlc(module, cfg, workers=None, timeout=600, env_extra=None, simulate=None, d
     if not r.ok and not r.violated:
         m = re.search(r"(Error:.*?)(?:\n\n|\Z)", out, re.S)
         r.error = (m.group(1) if m else out[-2000:])
-    for line in out.splitlines():
+    for line in full.splitlines():
         if line.startswith('<<"'):
             r.prints.append(line)
     return r
